@@ -151,7 +151,13 @@ def apply_contract(interp, c, func, args, kwargs):
         k = st.choose(1 + len(nondet))
         if k > 0:
             raise_(*nondet[k - 1])
-    result = c.returns.make(interp, 'ret.%s' % c.qname.rpartition(':')[2]) if isinstance(c.returns, Ty) else None
+    if isinstance(c.returns, Ty):
+        result = c.returns.make(interp, 'ret.%s' % c.qname.rpartition(':')[2])
+    elif callable(c.returns):
+        # the result is built from the actual arguments (e.g. an object that refers to them)
+        result = c.returns(interp, bound)
+    else:
+        result = None
     if c.yields is not None:
         # a generator used through its contract: all its items at once (its effects happen at the call)
         from .models import SIter
